@@ -1089,7 +1089,7 @@ def _gen_tables(tier, rng):
                'fields': _payload(okeys, ovf, nkeys, ['n', 's'], dict((k, rng.choice(['same', 'num', 'str'])) for k in nkeys))}
 
 
-HOT_ROWS_MAX = 160      # the extracted model sorts with a quadratic insertion sort over inductive integers
+HOT_ROWS_MAX = 520      # the extracted model (insertion sort over lists of inductive integers) is cubic: ~1 s at 500 rows
 
 
 def _gen_hot(K, tier, rng):
@@ -1097,7 +1097,7 @@ def _gen_hot(K, tier, rng):
     sizes = sorted(set(x for x in (K - 1, K, K + 1, 2 * K - 1, 2 * K, 2 * K + 1, 3 * K) if 1 <= x <= HOT_ROWS_MAX))
     t = 0
     for L in sizes:
-        for rep in range(6 if big else 3):
+        for rep in range((6 if big else 3) if L <= 128 else (2 if big else 1)):
             for what in ('result', 'old', 'new', 'run'):
                 t += 1
                 if what == 'result':      # L result rows: alternating old version / appended record, phase varies
